@@ -78,6 +78,9 @@ func (m *Made) Spec() *ItemSpec { return m.spec }
 
 // NeedsFinalize says whether the item was created in its pre-mutation state.
 func (m *Made) NeedsFinalize() bool {
+	if m.spec != nil && m.spec.K == "cellptr" && m.spec.F != nil && m.spec.Inner != nil && m.spec.Inner.K == "typed" {
+		return m.spec.Inner.Pre != nil && m.spec.Inner.Ptr && m.Mutate != nil
+	}
 	return m.spec != nil && m.spec.K == "typed" && m.spec.Pre != nil && m.spec.Ptr && m.Mutate != nil
 }
 
@@ -248,6 +251,10 @@ func (s *ItemSpec) Make() Made {
 		in := s.Inner.Make()
 		c := tabular.NewCell(in.Item)
 		m.Item = &c
+		if in.Mutate != nil {
+			// the cell pointed at follows its item (it is asked to update); the cell HOLDING the pointer is not asked
+			m.Mutate = func(f Fields) { in.Mutate(f); c.Update() }
+		}
 	default:
 		panic("gen: unknown item kind " + s.K)
 	}
@@ -445,6 +452,12 @@ func (r *R) WrapText(s string) ItemSpec {
 			}
 			pre := Fields{S: other, G: other, E: other, HV: f.HV, WV: f.WV}
 			it.Pre = &pre
+			if r.Chance(1, 5) {
+				// the cell holds a POINTER TO A CELL of such an item: when the item changes, the cell pointed at is
+				// brought up to date; the cell holding the pointer shows the new text once it is itself asked to update
+				in := it
+				return ItemSpec{K: "cellptr", Inner: &in, F: in.F}
+			}
 		}
 		return it
 	case 2:
